@@ -70,16 +70,23 @@ type vMon struct {
 	frozenAt int64 // stamp taken after Freeze() returned; 0 when not frozen / Unfreeze announced
 	lastFrz  int64 // stamp of the most recent freeze (kept after unfreeze, for the gated counter)
 	barrier  chan struct{}
+
+	// strict is set in constructed barrier runs after Freeze() returned while every slot was
+	// held by an operation blocked inside the inner backend: from then on ANY non-lock operation
+	// entering the inner backend before Unfreeze() is a violation, also one that was called
+	// (and queued for a slot) before the freeze - it can only have obtained its slot after the
+	// freeze, and the gate comes after the slot (added after seeded change C37-1).
+	strict atomic.Bool
 }
 
 func (m *vMon) Properties() backend.Properties {
 	return backend.Properties{Connections: uint(m.conns)}
 }
-func (m *vMon) Hasher() hash.Hash                  { return nil }
-func (m *vMon) Close() error                       { return nil }
-func (m *vMon) Delete(_ context.Context) error     { return nil }
-func (m *vMon) IsNotExist(_ error) bool            { return false }
-func (m *vMon) IsPermanentError(_ error) bool      { return false }
+func (m *vMon) Hasher() hash.Hash                                      { return nil }
+func (m *vMon) Close() error                                           { return nil }
+func (m *vMon) Delete(_ context.Context) error                         { return nil }
+func (m *vMon) IsNotExist(_ error) bool                                { return false }
+func (m *vMon) IsPermanentError(_ error) bool                          { return false }
 func (m *vMon) WarmupWait(_ context.Context, _ []backend.Handle) error { return nil }
 func (m *vMon) Warmup(_ context.Context, _ []backend.Handle) ([]backend.Handle, error) {
 	return nil, nil
@@ -108,6 +115,9 @@ func (m *vMon) enter(ctx context.Context, kind string, h backend.Handle) func() 
 	m.mu.Lock()
 	fa, last, b := m.frozenAt, m.lastFrz, m.barrier
 	m.mu.Unlock()
+	if fa != 0 && m.strict.Load() {
+		m.rec.Violation("started-while-frozen", fmt.Sprintf("%s %v entered the inner backend while frozen: it was queued for a slot when Freeze() returned (all %d slots were held inside the backend then) and got through before Unfreeze()", kind, h, m.conns), m.replay)
+	}
 	if op != nil {
 		if fa != 0 && op.called > fa {
 			m.rec.Violation("started-while-frozen", fmt.Sprintf("%s %v was called (stamp %d) after Freeze() had returned (stamp %d) and entered the inner backend before Unfreeze() was called", kind, h, op.called, fa), m.replay)
@@ -404,6 +414,10 @@ func vRunBarrier(rec *kit.Rec, can *vCanary, p *vPlan, rng *kit.RNG) (fatal bool
 			frozen = true
 		}
 		m.stampFrozen()
+		if barrier != nil && m.inflight.Load() == int64(p.Conns) {
+			m.strict.Store(true)
+			rec.Count("strict_frozen_barrier_runs", 1)
+		}
 		if barrier != nil {
 			if vLockRound(rec, can, m, be, p, "all-slots-taken+frozen") {
 				close(barrier)
